@@ -180,9 +180,15 @@ def rule_pp(tk, F, defined=()):
             elif d == 'ifdef': stack.append(a in defined); F.hit('PP')
             elif d == 'if':
                 m2 = re.match(r'!?\s*defined\s*\(?\s*(\w+)\s*\)?$', a)
-                if not m2: raise Drift("unsupported #if in body: " + a)
-                v = m2.group(1) in defined
-                stack.append((not v) if a.startswith('!') else v); F.hit('PP')
+                if m2:
+                    v = m2.group(1) in defined
+                    stack.append((not v) if a.startswith('!') else v); F.hit('PP')
+                else:
+                    # boolean combination of defined(X) only
+                    e = re.sub(r'defined\s*\(\s*(\w+)\s*\)|defined\s+(\w+)', lambda m: ' True ' if (m.group(1) or m.group(2)) in defined else ' False ', a)
+                    e = e.replace('&&', ' and ').replace('||', ' or ').replace('!', ' not ')
+                    if not re.fullmatch(r'[\sA-Za-z()]*', e) or re.search(r'\b(?!True\b|False\b|and\b|or\b|not\b)[A-Za-z_]\w*', e): raise Drift("unsupported #if in body: " + a)
+                    stack.append(bool(eval(e))); F.hit('PP')
             elif d == 'else': stack[-1] = not stack[-1]
             elif d == 'endif': stack.pop()
             else: raise Drift("unsupported preprocessor line in body: " + t)
